@@ -104,6 +104,22 @@ theorem C05_source_profile : CelloGen.Own.profile = modelledProfile := by decide
 /-- …and the container types register these functions under the classes the harness calls them through. -/
 theorem C05_source_instances : CelloGen.Own.instances = modelledInstances := by decide
 
+/-- **C05_generic_dispatch** (extension round): the generic entry points through which every container reaches its elements, as
+    the translator reads them from src/Alloc.c / src/Assign.c.  `destruct` consults the type's New instance and calls its
+    destructor — nothing else (no fallback that could skip or double a finalisation); `construct_with` calls the type's
+    constructor; `assign` calls the type's Assign when it has one and copies `size` bytes only otherwise; `copy` is
+    `assign(alloc(type_of(self)), self)` unless the type registers Copy — and no container type (Array, List, Table, Tree, Box)
+    registers Copy or Swap: the model's `copy c d` (assign into a fresh empty container; `swap` of two Array records = the
+    byte exchange) is what the library runs. -/
+theorem C05_generic_dispatch :
+    CelloGen.Own.generic =
+      [("destruct", ["instance(New)", "->destruct"]),
+       ("construct_with", ["instance(New)", "->construct_with", "assign"]),
+       ("copy", ["instance(Copy)", "->copy", "assign", "alloc"]),
+       ("assign", ["instance(Assign)", "->assign", "memcpy", "throw"])] ∧
+    CelloGen.Own.copySwapInstances = [] := by decide
+
+
 /-! ## Conservation, per container and per operation (all inputs) -/
 
 /-- **Array.c**: push, push_at, pop, pop_at, set, rem, clear/resize, concat, assign/copy, sort — each conserves the
@@ -913,6 +929,78 @@ example : liveCount (runA {} demoAliased).1 = 16 ∧ (runA {} demoAliased).2.all
 example : let w := (runA {} [.base (.newSeq 0 .array [1, 2]), .base (.newSeq 1 .list [3])]).1
     inContractA w (.aliased 0 (.push ⟨0, .elem 0⟩)) = false ∧ inContractA w (.aliased 0 (.pushAt 0 ⟨0, .elem 1⟩)) = false ∧
     inContractA w (.aliased 0 (.push ⟨1, .elem 0⟩)) = true ∧ inContractA w (.aliased 1 (.push ⟨1, .elem 0⟩)) = true := by
+  decide
+
+/-! ## Stored objects as operands of `concat` and of the constructors (extension round)
+
+`concat(l, tuple(get(l, 0), get(t, k), x))`, `new(List, Probe, get(l, 0), …)`, `new(Table, K, V, key_from_iteration, get(u, k), …)`:
+SEVERAL operands at once, any of which may be a stored object (`ACall.concat / newSeq / newMap`).  `C05_aliased_as_resolved`,
+`C05_conservation_aliased_partial` and `C05_history_aliased_partial` above quantify over every `ACall` and so cover them; the
+theorems here are the List_Concat-specific content: the operands are read ONE BY ONE, each when its own push runs. -/
+
+/-- **C05_concat_operands_read_when_pushed.**  For every world, every List `c` of probe elements and every operand list (fresh
+    objects, elements / key objects / value objects of other containers, nodes of `c` itself by positive or negative index):
+    List_Concat as the code runs it — `List_Push` per operand, operand i read from the list that already holds the elements
+    constructed for the operands before it (`listConcatSrc`) — is executed exactly when every reference designates an element,
+    and then equals the concat of fresh objects carrying the payloads the references resolve to BEFORE the call. -/
+theorem C05_concat_operands_read_when_pushed {w : World} {c : Nat} {xs : List Tok}
+    (hl : lookup w.objs c = some (.seq .list .probe xs)) (items : List RArg) :
+    (toCSrcs w c xs items).bind (listConcatSrc w.next xs []) =
+      (resolveArgs w items).map (fun ps => listConcatArgs w.next xs (ps.map Arg.pay)) :=
+  listConcat_operands hl items
+
+/-- at the level of one List (no world): operands whose read is stable under pushes at the tail — in particular every node
+    the list held before the call — make the item-by-item run construct one fresh element per operand, in order, finalise
+    nothing and leave the old elements where they were: contents after = contents before + constructed. -/
+theorem C05_concat_operands_conservation (next : Nat) (xs : List Tok) {ss : List CSrc} {ps : List Nat}
+    (h : List.Forall₂ (Stable xs) ss ps) :
+    ∃ r, listConcatSrc next xs [] ss = some r ∧ r.issued = mkFresh next ps ∧ r.val = xs ++ r.issued ∧ r.retired = [] ∧
+      r.updated = [] ∧ r.out = .ok := by
+  refine ⟨_, listConcatSrc_stable next xs h [], ?_, ?_, rfl, rfl, rfl⟩ <;> simp
+
+/-- a node of the receiving list IS stable (non-vacuity of the hypothesis above), a position beyond its end is not: a model
+    that resolved `get(l, -1)` only when the push runs would read the element constructed for the operand before it -/
+example : Stable [⟨1, 5⟩, ⟨2, 6⟩] (.node 1) 6 ∧ ¬ Stable [⟨1, 5⟩, ⟨2, 6⟩] (.node 2) 7 ∧
+    (CSrc.node 2).read ([⟨1, 5⟩, ⟨2, 6⟩] ++ [⟨3, 7⟩]) = some 7 := by
+  refine ⟨fun acc => by simp [CSrc.read], fun h => ?_, by decide⟩
+  have := h []
+  simp [CSrc.read] at this
+
+/-- an op file with operands of every shape, all executed: a List concatenated nodes of itself (negative index = position
+    before the call) mixed with fresh objects and elements of an Array / Table / Tree; an Array concatenated elements of
+    others; List / Array / Table / Tree constructed from stored objects (the same object twice is fine there: the
+    constructors fetch their arguments by index) — then the sources are mutated and deleted, the copies stay -/
+def demoOperands : List AOp :=
+  [.base (.newSeq 0 .list [1, 2, 3]), .base (.newSeq 1 .array [7, 8]), .base (.newMap 2 .table [(5, 50), (1000, 9)]),
+   .aliased 0 (.concat [.ref ⟨0, .elem (-1)⟩, .pay 4, .ref ⟨0, .elem 0⟩]),
+   .aliased 0 (.concat [.ref ⟨1, .elem 0⟩, .ref ⟨2, .key 5⟩, .ref ⟨2, .val 1000⟩, .ref ⟨0, .elem (-2)⟩]),
+   .aliased 1 (.concat [.ref ⟨0, .elem 1⟩, .ref ⟨2, .val 5⟩]),
+   .aliased 3 (.newSeq .list [.ref ⟨0, .elem 0⟩, .ref ⟨0, .elem 0⟩, .pay 6]),
+   .aliased 4 (.newSeq .array [.ref ⟨2, .key 1000⟩]),
+   .aliased 5 (.newMap .tree [(.ref ⟨2, .key 5⟩, .ref ⟨0, .elem 3⟩), (.pay 8, .ref ⟨2, .val 5⟩), (.ref ⟨2, .key 5⟩, .ref ⟨1, .elem 1⟩)]),
+   .aliased 6 (.newMap .table [(.ref ⟨0, .elem 1⟩, .ref ⟨5, .val 8⟩)]),
+   .base (.del 0), .base (.mrem 2 5), .base (.read 5)]
+
+example : allInContractA {} demoOperands := by
+  simp only [demoOperands, allInContractA]
+  decide
+
+example : liveCount (runA {} demoOperands).1 = 16 ∧ (runA {} demoOperands).2.all (fun o => !o.bad) = true ∧
+    -- constructed / finalised / assigned in place per call: the two List concats, the Array concat, the four constructors
+    (((runA {} demoOperands).2.map (fun o => (o.issued.map (·.pay), o.retired.length, o.updated.length))).drop 3).take 7 =
+      [([3, 4, 1], 0, 0), ([7, 5, 9, 4], 0, 0), ([2, 50], 0, 0), ([1, 1, 6], 0, 0), ([1000], 0, 0),
+       ([5, 3, 8, 50], 0, 2), ([2, 50], 0, 0)] := by
+  decide
+
+/-- outside the contract (answered `bad` by harness and model): the same stored object twice among the operands of concat
+    (the Tuple of operands cannot be iterated: KF-C04-tuple-dup-iter), records of the receiving Array
+    (KF-C04-push-own-element), a reference that designates nothing; the same operands through a constructor are fine -/
+example : let w := (runA {} [.base (.newSeq 0 .list [1, 2]), .base (.newSeq 1 .array [3])]).1
+    inContractA w (.aliased 0 (.concat [.ref ⟨0, .elem 0⟩, .ref ⟨0, .elem (-2)⟩])) = false ∧
+    inContractA w (.aliased 1 (.concat [.ref ⟨1, .elem 0⟩])) = false ∧
+    inContractA w (.aliased 0 (.concat [.ref ⟨0, .elem 2⟩])) = false ∧
+    inContractA w (.aliased 1 (.concat [.ref ⟨0, .elem 0⟩, .ref ⟨0, .elem 1⟩])) = true ∧
+    inContractA w (.aliased 2 (.newSeq .list [.ref ⟨0, .elem 0⟩, .ref ⟨0, .elem 0⟩])) = true := by
   decide
 
 /-! ## Keys with boundary hash values -/
